@@ -350,6 +350,25 @@ fn run(ctx: &mut Ctx) {
                 ("cdn", c, n, if ok { Some(u16::from(rc::CodeValue::from(v.unwrap())).to_be_bytes().to_vec()) } else { None })
             };
             ctx.rep.bucket("named.checked");
+            // a result code built from one family's named value must convert to the other family
+            // exactly when its number is assigned there
+            if field == "stop_ccn" || field == "cdn" {
+                let cv = if field == "stop_ccn" { rc::StopCcnCode::try_from(code).ok().map(rc::CodeValue::from) } else { rc::CdnCode::try_from(code).ok().map(rc::CodeValue::from) };
+                if let Some(cv) = cv {
+                    let s_ok = cv.as_stop_ccn().map(|v| variant_name(&v));
+                    let c_ok = cv.as_cdn().map(|v| variant_name(&v));
+                    let want_s = STOP_CCN_CODES.iter().find(|(c, _)| *c == code).map(|(_, n)| n.to_string());
+                    let want_c = CDN_CODES.iter().find(|(c, _)| *c == code).map(|(_, n)| n.to_string());
+                    if s_ok.clone().ok() != want_s || c_ok.clone().ok() != want_c {
+                        ctx.violate(
+                            format!("C16:result_code:named-cross-family:{}", field),
+                            format!("result code built from the {} value {} (number {}): as_stop_ccn() = {:?} (expected {:?}), as_cdn() = {:?} (expected {:?})", field, name, code, s_ok, want_s, c_ok, want_c),
+                            J::obj(vec![("name", J::s(name)), ("rfc_number", J::U(code as u64))]),
+                        );
+                    }
+                    ctx.rep.bucket("named.cross_family");
+                }
+            }
             if encoded != Some(code.to_be_bytes().to_vec()) {
                 ctx.violate(format!("C16:{}:named-value-number", field), format!("named value {} should encode to RFC number {}, got {:?}", name, code, encoded), J::obj(vec![("name", J::s(name)), ("rfc_number", J::U(code as u64))]));
             }
